@@ -59,6 +59,14 @@ class CallMixin:
             b = getattr(self, "b_" + nm, None)
             if b is not None:
                 return [(st, b(node, st))]
+            ext = self.contracts.get("external::" + nm)
+            if ext is not None and nm not in self.mod.funcs:
+                # a function of a third-party package, used through its stated (trusted) contract
+                args, kwargs = self.eval_args(node, st)
+                params = dict(zip(ext["param_names"], args))
+                params.update(kwargs)
+                self.trust("external function %s used by stated contract (source: %s)" % (nm, ext.get("source", "?")))
+                return self.apply_contract("external::" + nm, ext, params, node, st)
             fv = self.global_name(nm, node, st)
             if isinstance(fv, Fn):
                 return self.call_fn(fv, node, st, nested)
@@ -246,7 +254,7 @@ class CallMixin:
                 s2.ghost["result"] = res
                 s2.old = old
                 for gname, (gdom, grng) in (c.get("ghost_out") or {}).items():
-                    fd = z3.Function("%s_%s!%d" % (gprefix, gname, fresh_id()), *([SORTS[d] for d in gdom] + [SORTS[grng]]))
+                    fd = fresh_func("%s_%s" % (gprefix, gname), *([SORTS[d] for d in gdom] + [SORTS[grng]]))
                     s2.ghost[gname] = fd
                     s2.ghost["%s_%s" % (gprefix, gname)] = fd
                 for e in c.get("ensures", []):
